@@ -405,6 +405,10 @@ func (g *syncGen) ingress(ns, name string, ts int) world.IngressSpec {
 		if r.Chance(1, 6) {
 			s.Annotations["auth-tls-strict"] = gen.Pick(r, []string{"true", "false"})
 		}
+		if r.Chance(1, 4) {
+			// host-level setting several hosts can claim: the same alias on distinct hostnames (seed C06e)
+			s.Annotations["server-alias"] = gen.Pick(r, []string{"alias.local", "www.local"})
+		}
 		if r.Chance(1, 5) {
 			// settings read only by the declaration that CREATES the backend object
 			world.CreateTimeAnnotations(r, &s)
